@@ -172,7 +172,9 @@ def escape_project(seed, i):
                                                             p_varopts=0.0, p_cli_define=0.0, p_hard_missing=0.0, n_apps=(1, 2)))
     root = p["files"]["laze-project.yml"][0]
     default = __import__("lazeverif.projcheck", fromlist=["x"]).default_context(p)
-    tag = f"LIT{i}"
+    # the escaped name is a variable of the project, or one of the LOAD-TIME variables (the early pass must leave their escapes alone too)
+    early = rng.choice(["relpath", "root", "srcdir"]) if rng.random() < 0.3 else None
+    tag = early or f"LIT{i}"
     where = rng.choice(["context-env", "module-global", "module-local", "rule-cmd", "task-cmd", "rule-export", "rule-export", "list-middle"])
     apps = [m for k, m, path in __import__("lazeverif.projcheck", fromlist=["x"]).yaml_modules(p) if k == "apps"]
     esc = "\\${" + tag + "}"
@@ -189,7 +191,8 @@ def escape_project(seed, i):
         # an escaped reference that is neither the first nor the last marker of its string, inside a list element
         default.setdefault("env", {})["ESCV"] = ["${builder} " + esc + " ${app}", "t"]
     # the variable named inside the escape IS defined: a wrong un-escaping would substitute it
-    default.setdefault("env", {})[tag] = "SUBSTITUTED"
+    if not early:
+        default.setdefault("env", {})[tag] = "SUBSTITUTED"
     for r in default["rules"]:
         if r["name"] in ("LINK", "CC"):
             r["cmd"] = r["cmd"] + " ${ESCV}" + (" " + esc if where == "rule-cmd" else "")
